@@ -371,6 +371,8 @@ def call_lambda(ex, state, f, args, kwargs):
 
 def clause_env(ex, state, contract, env):
     e = dict(env)
+    for k, v in env.items():
+        e.setdefault(k + "_0", v)       # entry value of a parameter (same name as inside loop invariants)
     if state.ghost is not None:
         e["ghost"] = state.ghost
     return e
